@@ -20,7 +20,7 @@ ASSUMPTIONS = ["a conforming unit answers QUERY NEXT DEVICE TYPE in strictly asc
                "when a stream is exhausted the last answer repeats for ever (never-ending unit)"]
 EXHAUSTIVE = {"quick": False, "thorough": False}
 REQUIRED_ANCHORS = {"all": ["dt_lists_checked", "group_sets_checked", "setgroups_checked", "streams_checked",
-                            "streams_must_raise", "streams_conforming"]}
+                            "streams_must_raise", "streams_conforming", "interleaved_pairs"]}
 SHARD_TIMEOUT = {"quick": 600, "thorough": 3000}
 
 ALPHABET = ["none", "garbled", 0, 1, 6, "6b", 254, 255]
@@ -40,7 +40,37 @@ def plan(tier, seed):
     for p in range(np_):
         sh.append({"kind": "setgroups", "part": p, "of": np_, "random": 1000 if tier == "quick" else 4000,
                    "structured": tier == "thorough"})
+    sh.append({"kind": "interleaved", "n": 400 if tier == "quick" else 6000})
     return sh
+
+
+def run_interleaved(desc, seed, res):
+    from props import pairs
+    from dali import address
+    from dali.sequences import SetGroups, QueryGroups, QueryDeviceTypes
+    from models.gear102 import Gear
+    from models.bus import Bus
+
+    def units(rr):
+        ta = rr.randrange(64)
+        t = Gear(short=ta, groups={g for g in range(16) if rr.random() < 0.5}, device_types=rr.choice([[], [6], [1, 6, 8], [0, 4], [7]]))
+        o = Gear(short=(ta + 1) % 64, groups={g for g in range(16) if rr.random() < 0.5}, device_types=[6])
+        return ta, t, o
+
+    def mk_set(rr):
+        ta, t, o = units(rr)
+        req = {g for g in range(16) if rr.random() < 0.5}
+        return Bus([t, o], bound=BOUND), SetGroups(address.GearShort(ta), req), lambda: (sorted(t.groups), sorted(o.groups))
+
+    def mk_qg(rr):
+        ta, t, o = units(rr)
+        return Bus([t, o], bound=BOUND), QueryGroups(address.GearShort(ta)), lambda: (sorted(t.groups), sorted(o.groups))
+
+    def mk_qdt(rr):
+        ta, t, o = units(rr)
+        return Bus([t, o], bound=BOUND), QueryDeviceTypes(address.GearShort(ta)), lambda: (sorted(t.groups),)
+    pairs.differential(res, "C08", rng(seed, "C08", "interleaved"), {"SetGroups": mk_set, "QueryGroups": mk_qg, "QueryDeviceTypes": mk_qdt},
+                       desc["n"])
 
 
 # ----------------------------------------------------------------------------- streams
@@ -368,4 +398,6 @@ def run_shard(desc, tier, seed):
         run_qgroups(desc, res)
     elif k == "setgroups":
         run_setgroups(desc, seed, res)
+    elif k == "interleaved":
+        run_interleaved(desc, seed, res)
     return res
